@@ -455,6 +455,18 @@ class Machine:
             return None
         if cal in ("ascon_acquire", "ascon_release"):
             return None
+        if cal == "strlen":
+            p0 = args[0]
+            n = 0
+            while True:
+                b = to_int(self.load(Ptr(p0.obj, p0.off + n), 1))
+                if b is None:
+                    raise Unsupported("strlen of symbolic data")
+                if b == 0:
+                    return const_bits(n, 64)
+                n += 1
+                if n > 4096:
+                    raise Unsupported("unterminated string")
         if cal == "ascon_init":
             self.store(args[0], const_bits(0, 8) * 40)
             return None
